@@ -145,8 +145,8 @@ func (c10) Gen(rng *rand.Rand, tier string, idx int) Case {
 		return idleCase(rng, "session")
 	}
 	if idx%12 == 11 {
-		to := []int64{1000, 500}[rng.Intn(2)]
-		c.Cfg = [][]string{{"kind", "sqlsession"}, {"timeout", itoa(to)}, {"ooo", "0"}, {"late", "0"}, {"now", "0"}}
+		to := []int64{1000, 500, 1500, 90000}[rng.Intn(4)]
+		c.Cfg = [][]string{{"kind", "sqlsession"}, {"timeout", itoa(to)}, {"ooo", "0"}, {"late", "0"}, {"now", "0"}, {"spell", []string{"ms", "go"}[rng.Intn(2)]}}
 		genSQLSession(rng, &c, to)
 		return c
 	}
